@@ -113,6 +113,7 @@ pub fn c07_hotspot_throttling(s: Shape) {
     let chain = crate::util::chain_for(&s, sentinel_core::verif::slots::HOTSPOT);
     let mut seen = [false; 2];
     let mut last = [0u64; 2]; // scheduled time (ms) of the last admitted request per value
+    let mut prev_sched = [0u64; 2];
     for _ in 0..k {
         let gap = vrt::any_u64("gap", 0, if q == 0 { 1000 } else { 3 * d * 1000 / q + maxq });
         t += gap;
@@ -157,6 +158,14 @@ pub fn c07_hotspot_throttling(s: Shape) {
                         last[v] = slot;
                     }
                 }
+                // implementation-independent pacing: scheduled no closer than batch*duration/q, where the
+                // scheduled time is when the caller is released; half a millisecond of rounding is allowed:
+                // spacing >= n*d*1000/q - 1/2  <=>  2*q*spacing + q >= 2*n*d*1000
+                let sched = after_ns / 1_000_000;
+                if prev_sched[v] != 0 {
+                    vrt::check(2 * q * (sched - prev_sched[v]) + q >= 2 * n * d * 1000, "C07h:paced-closer-than-interval");
+                }
+                prev_sched[v] = sched;
                 t = after_ns / 1_000_000;
                 e.exit();
             }
